@@ -293,7 +293,7 @@ Definition step_core (s : rt) (e : event) : option rt :=
       match p_st (pay s p) with
       | PUnknown =>
           let st := match r_phase (run_ s r) with Idle | Rejected => PQueued | _ => PReg end in
-          Some (set_pay s p (mkP st f r OrAdopt 0 0 0 0 0 true false))
+          Some (set_pay s p (mkP st f r OrAdopt 0 0 (p_starts (pay s p)) (p_cancels (pay s p)) (p_cleans (pay s p)) true false))
       | _ => None
       end
   | AdoptEnd p ok =>
@@ -304,7 +304,7 @@ Definition step_core (s : rt) (e : event) : option rt :=
       else None
   | NewService c sv f =>                              (* service.py:38-48,89-104 *)
       match p_st (pay s sv) with
-      | PUnknown => Some (set_pay s sv (mkP PUnit f 0 OrService 0 0 0 0 0 false false))
+      | PUnknown => Some (set_pay s sv (mkP PUnit f 0 OrService 0 0 (p_starts (pay s sv)) (p_cancels (pay s sv)) (p_cleans (pay s sv)) false false))
       | _ => None
       end
   | DropService sv =>
@@ -418,7 +418,7 @@ Definition step_core (s : rt) (e : event) : option rt :=
       match p_st (pay s p) with
       | PUnknown =>
           if phase_up (r_phase (run_ s r)) then
-            Some (set_pay s p (mkP PExecPending f r (OrExec tid) 0 0 0 0 0 false false))
+            Some (set_pay s p (mkP PExecPending f r (OrExec tid) 0 0 (p_starts (pay s p)) (p_cancels (pay s p)) (p_cleans (pay s p)) false false))
           else None
       | _ => None
       end
